@@ -331,3 +331,54 @@ def make_reorder(src_root: Path | str, dst: Path | str, with_tests: bool = False
             open(path, "w").write(ast.unparse(tree) + "\n")
             total += r.n
     return total
+
+
+# ---- early exit -> else ----------------------------------------------------------------------
+
+_EXITS = (ast.Return, ast.Raise, ast.Continue, ast.Break)
+
+
+class Elsify:
+    """`if C: ...; return X` followed by the rest of the block  ->  `if C: ...; return X` / `else: <rest>`
+    (the arm ends in return/raise/continue/break, there is no else yet and the rest is not empty; a rest that is a lone `if` prints as an elif)."""
+
+    def __init__(self) -> None:
+        self.count = 0
+
+    def block(self, stmts: list[ast.stmt]) -> list[ast.stmt]:
+        out: list[ast.stmt] = []
+        for i, st in enumerate(stmts):
+            if isinstance(st, (ast.FunctionDef, ast.AsyncFunctionDef, ast.ClassDef)):
+                out.append(st)
+                continue
+            for fld in ("body", "orelse", "finalbody"):
+                seq = getattr(st, fld, None)
+                if isinstance(seq, list) and seq and all(isinstance(x, ast.stmt) for x in seq):
+                    setattr(st, fld, self.block(seq))
+            for h in getattr(st, "handlers", []) or []:
+                h.body = self.block(h.body)
+            for c in getattr(st, "cases", []) or []:
+                c.body = self.block(c.body)
+            if isinstance(st, ast.If) and not st.orelse and isinstance(st.body[-1], _EXITS) and i + 1 < len(stmts):
+                st.orelse = self.block(stmts[i + 1:])
+                self.count += 1
+                out.append(st)
+                return out
+            out.append(st)
+        return out
+
+
+def make_elsify(src_root: Path | str, dst: Path | str, with_tests: bool = False) -> int:
+    copy_tree(src_root, dst, with_tests)
+    total = 0
+    for p in _py_files(dst):
+        tree = ast.parse(open(p).read())
+        e = Elsify()
+        for node in ast.walk(tree):
+            if isinstance(node, (ast.FunctionDef, ast.AsyncFunctionDef)):
+                node.body = e.block(node.body)
+        if e.count:
+            ast.fix_missing_locations(tree)
+            open(p, "w").write(ast.unparse(tree) + "\n")
+            total += e.count
+    return total
